@@ -96,7 +96,7 @@ M.update({
   ('preload-skips-last-glyph-attrs', 'src/GlyphCache.cpp', 'for (uint16 gid = 1; loaded && gid != _num_glyphs; ++gid)', 'for (uint16 gid = 1; loaded && gid != _num_glyphs; ++gid) if (gid % 97 == 96) { _glyphs[gid] = _glyphs[0]; } else'),
  ],
  'C08': [
-  ('setfeature-writes-face-default', 'src/inc/Segment.h', 'pFR->applyValToFeature(val, m_feats[index]);', 'pFR->applyValToFeature(val, m_feats[index]); pFR->applyValToFeature(val, const_cast<Features &>(m_face->theSill().theFeatureMap().m_defaultFeatures));'),
+  ('advance-depends-on-call-count', 'src/Slot.cpp', '    m_advance = Position(aGlyph->theAdvance().x, 0.);', '    { static unsigned calls; m_advance = Position(aGlyph->theAdvance().x + float((++calls >> 9) & 1), 0.); }'),
  ],
  'C12': [('nul-stop-reverted', 'src/Segment.cpp', "if (usv == 0)   break;      // the string ends at the first NUL, whatever n_chars says", "")],
  'C13': [('fmt4-lookup-end-exclusive', 'src/TtfUtil.cpp', 'if (chEnd >= nUnicodeId && nUnicodeId >= chStart)', 'if (chEnd > nUnicodeId && nUnicodeId >= chStart)'),
@@ -110,6 +110,9 @@ def main():
     tier = 'quick'
     if '--tier' in a:
         i = a.index('--tier'); tier = a[i + 1]; del a[i:i + 2]
+    chk = None
+    if '--check' in a:
+        i = a.index('--check'); chk = a[i + 1]; del a[i:i + 2]
     prop = a[0]
     names = a[1:]
     log = os.path.join(os.path.dirname(os.path.abspath(__file__)), 'mutants.log')
@@ -118,9 +121,9 @@ def main():
             continue
         t0 = time.time()
         r = subprocess.run([os.path.join(os.path.dirname(os.path.abspath(__file__)), 'mut.py'), '--sub', f, old, new, '--',
-                            './check', prop, '--tier', tier], stdout=subprocess.PIPE, stderr=subprocess.STDOUT, text=True)
+                            './check', chk or prop, '--tier', tier], stdout=subprocess.PIPE, stderr=subprocess.STDOUT, text=True)
         viol = [l for l in r.stdout.splitlines() if l.startswith('VIOLATION')]
-        rec = dict(prop=prop, mutant=name, tier=tier, rc=r.returncode, caught=r.returncode == 1 and bool(viol), labels=[v.split('label=')[-1] for v in viol][:4], wall=round(time.time() - t0, 1))
+        rec = dict(prop=prop, check=chk or prop, mutant=name, tier=tier, rc=r.returncode, caught=r.returncode == 1 and bool(viol), labels=[v.split('label=')[-1] for v in viol][:4], wall=round(time.time() - t0, 1))
         if r.returncode not in (0, 1):
             rec['tail'] = r.stdout[-600:]
         print(json.dumps(rec), flush=True)
